@@ -8,6 +8,7 @@ import (
 	remoteexecution "github.com/bazelbuild/remote-apis/build/bazel/remote/execution/v2"
 	"github.com/buildbarn/bb-remote-execution/pkg/proto/buildqueuestate"
 	"github.com/buildbarn/bb-remote-execution/pkg/proto/remoteworker"
+	"github.com/buildbarn/bb-remote-execution/pkg/scheduler"
 	"github.com/buildbarn/bb-remote-execution/pkg/verifsim/simsync"
 
 	"cloud.google.com/go/longrunning/autogen/longrunningpb"
@@ -107,6 +108,13 @@ var (
 	// arbitrary int32 values.
 	priorities = []int32{0, 0, -100, 7, 100, -2147483600, 2147483000}
 )
+
+// termRecord is a TerminateWorkers call that returned successfully.
+type termRecord struct {
+	pattern   map[string]string
+	start     *scheduler.VerifSnapshot
+	startStep int
+}
 
 func newClient(w *world, idx int) *client {
 	c := &client{w: w, idx: idx, name: fmt.Sprintf("client%d", idx)}
@@ -473,6 +481,7 @@ type operatorActor struct {
 	blocking    bool
 	termPattern map[string]string
 	termTasks   map[string]uintptr
+	termDone    []termRecord // successful TerminateWorkers calls not yet seen by the oracle
 	killSeq     int
 	ops         int
 }
@@ -567,8 +576,14 @@ func (o *operatorActor) loop() {
 			o.termPattern = pattern
 			o.termTasks = nil
 			o.blocking = true
+			// The scheduler's state as of the last quiescent point, i.e.
+			// before this call began.
+			startSnap, startStep := w.orc.snap, w.k.Step
 			_, err = w.bq.TerminateWorkers(o.ctx, &buildqueuestate.TerminateWorkersRequest{WorkerIdPattern: pattern})
 			o.blocking = false
+			if err == nil {
+				o.termDone = append(o.termDone, termRecord{pattern: pattern, start: startSnap, startStep: startStep})
+			}
 		case 5:
 			desc = "ListOperations"
 			var lr *buildqueuestate.ListOperationsResponse
